@@ -194,14 +194,14 @@ Qed.
 
 End QuoteStep.
 
-Definition ul_open_at (lv : Z) : token :=
-  map_tok 0 1 (set_markup (set_level (set_block (new_token [98; 117; 108; 108; 101; 116; 95; 108; 105; 115; 116; 95; 111; 112; 101; 110] [117; 108] 1) true) lv) [45]).
-Definition ul_close_at (lv : Z) : token :=
-  set_markup (set_level (set_block (new_token [98; 117; 108; 108; 101; 116; 95; 108; 105; 115; 116; 95; 99; 108; 111; 115; 101] [117; 108] (-1)) true) lv) [45].
-Definition li_open_at (lv : Z) : token :=
-  map_tok 0 1 (set_markup (set_level (set_block (new_token s_list_item_open s_li 1) true) lv) [45]).
-Definition li_close_at (lv : Z) : token :=
-  set_markup (set_level (set_block (new_token s_list_item_close s_li (-1)) true) lv) [45].
+Definition ul_open_at (m lv : Z) : token :=
+  map_tok 0 1 (set_markup (set_level (set_block (new_token [98; 117; 108; 108; 101; 116; 95; 108; 105; 115; 116; 95; 111; 112; 101; 110] [117; 108] 1) true) lv) [m]).
+Definition ul_close_at (m lv : Z) : token :=
+  set_markup (set_level (set_block (new_token [98; 117; 108; 108; 101; 116; 95; 108; 105; 115; 116; 95; 99; 108; 111; 115; 101] [117; 108] (-1)) true) lv) [m].
+Definition li_open_at (m lv : Z) : token :=
+  map_tok 0 1 (set_markup (set_level (set_block (new_token s_list_item_open s_li 1) true) lv) [m]).
+Definition li_close_at (m lv : Z) : token :=
+  set_markup (set_level (set_block (new_token s_list_item_close s_li (-1)) true) lv) [m].
 
 (* the line tables of an off_line state, whatever the level *)
 Definition off_tabs (st : bstate) (pre1 pre2 s : str) (bs li : Z) : Prop :=
@@ -210,28 +210,68 @@ Definition off_tabs (st : bstate) (pre1 pre2 s : str) (bs li : Z) : Prop :=
   /\ b_tShift st = [len pre2; 0] /\ b_sCount st = [len pre2; 0] /\ b_bsCount st = [bs; 0]
   /\ b_blkIndent st = len pre2 /\ b_lineMax st = 1 /\ b_listIndent st = li.
 
-(* ---- one bullet marker in front of the rest of the line ---- *)
+(* k spaces *)
+Definition sp (k : nat) : str := repeat 32 k.
+Lemma len_sp k : len (sp k) = Z.of_nat k.
+Proof. unfold len, sp. rewrite repeat_length. reflexivity. Qed.
+Lemma sp_S k : sp (S k) = 32 :: sp k.
+Proof. reflexivity. Qed.
+
+(* reading a character that follows k spaces *)
+Lemma py_idx_after_sp : forall k (P : str) c r, py_idx (P ++ sp k ++ c :: r) (len P + Z.of_nat k) = Ok c.
+Proof.
+  induction k as [|k IH]; intros P c r.
+  - cbn [sp repeat app]. change (Z.of_nat 0) with 0. rewrite Z.add_0_r. apply py_idx_app.
+  - rewrite sp_S. cbn [app].
+    replace (P ++ 32 :: sp k ++ c :: r) with ((P ++ [32]) ++ sp k ++ c :: r) by (rewrite <- app_assoc; reflexivity).
+    replace (len P + Z.of_nat (S k)) with (len (P ++ [32]) + Z.of_nat k) by (rewrite len_app; change (len [32]) with 1; lia).
+    apply IH.
+Qed.
+
+(* the blanks after a list marker: k spaces, then a character that is neither space nor tab *)
+Lemma list_blanks_spaces c1 (H9 : (c1 =? 9) = false) (H32 : (c1 =? 32) = false) :
+  forall k (P : str) r fuel mx o bs, (k < fuel)%nat -> len P + Z.of_nat k < mx ->
+  list_blanks fuel (P ++ sp k ++ c1 :: r) (len P) mx o bs = Ok (len P + Z.of_nat k, o + Z.of_nat k).
+Proof.
+  induction k as [|k IH]; intros P r fuel mx o bs Hf Hm; (destruct fuel as [|f]; [lia|]); cbn [list_blanks].
+  - change (Z.of_nat 0) with 0 in *. assert (E : negb (len P <? mx) = false) by lia. rewrite E.
+    cbn [sp repeat app]. rewrite py_idx_app. cbn [bind]. rewrite H9, H32. rewrite !Z.add_0_r. reflexivity.
+  - assert (E : negb (len P <? mx) = false) by lia. rewrite E.
+    rewrite sp_S. cbn [app]. rewrite py_idx_app. cbn [bind]. change (32 =? 9) with false. change (32 =? 32) with true. cbv iota.
+    replace (P ++ 32 :: sp k ++ c1 :: r) with ((P ++ [32]) ++ sp k ++ c1 :: r) by (rewrite <- app_assoc; reflexivity).
+    replace (len P + 1) with (len (P ++ [32])) by (rewrite len_app; reflexivity).
+    rewrite IH; [| lia | rewrite len_app; change (len [32]) with 1; lia].
+    rewrite len_app. change (len [32]) with 1. f_equal. f_equal; lia.
+Qed.
+
+(* ---- one bullet marker and its blanks in front of the rest of the line ---- *)
 Section ItemStep.
 Context (cfg : bcfg) (rf cf : str -> str).
-Context (pre1 pre2 : str) (c1 : Z) (r1 : str) (bs li lv : Z).
+Context (pre1 pre2 : str) (m : Z) (k : nat) (c1 : Z) (r1 : str) (bs li lv : Z).
+Context (Hm : m = 42 \/ m = 45 \/ m = 43) (Hk : (1 <= k <= 4)%nat).
 Context (Hc9 : (c1 =? 9) = false) (Hc32 : (c1 =? 32) = false).
 Notation L' := (c1 :: r1).
-Notation L := (45 :: 32 :: c1 :: r1).
+Notation L := (m :: sp k ++ c1 :: r1).
 Notation off := (len pre1 + len pre2).
 
-Lemma i_src st : b_src st = pre1 ++ pre2 ++ L ++ [10] -> b_src st = (pre1 ++ pre2) ++ 45 :: 32 :: c1 :: r1 ++ [10].
-Proof. intros ->. rewrite <- app_assoc. reflexivity. Qed.
+Lemma i_src st : b_src st = pre1 ++ pre2 ++ L ++ [10] -> b_src st = (pre1 ++ pre2) ++ m :: sp k ++ c1 :: r1 ++ [10].
+Proof. intros ->. rewrite <- !app_assoc. cbn [app]. rewrite <- app_assoc. reflexivity. Qed.
 
-Lemma len_Li : len L = len r1 + 3.
-Proof. rewrite !len_cons. lia. Qed.
+Lemma len_Li : len L = len r1 + 2 + Z.of_nat k.
+Proof. rewrite len_cons, len_app, len_sp, len_cons. lia. Qed.
+
+Lemma i_second st : b_src st = pre1 ++ pre2 ++ L ++ [10] -> py_idx (b_src st) (off + 1) = Ok 32.
+Proof.
+  intros H. rewrite (i_src st H), <- len_app. destruct k as [|k']; [lia|]. rewrite sp_S. cbn [app]. apply py_idx_app2.
+Qed.
 
 Context (rec : rec_t) (X : list token).
-Context (HREC : rec_adds rec pre1 (pre2 ++ [45; 32]) L' bs (len pre2) (lv + 2) X).
+Context (HREC : rec_adds rec pre1 (pre2 ++ m :: sp k) L' bs (len pre2) (lv + 2) X).
 
 Lemma list_items_off f term st2 start : off_tabs st2 pre1 pre2 L bs li -> b_level st2 = lv + 1 -> b_line st2 = 0 ->
-  exists st6, list_items cfg (S f) rec term st2 false 45 0 0 1 (off + 1) start true false = Ok (1, true, st6)
+  exists st6, list_items cfg (S f) rec term st2 false m 0 0 1 (off + 1) start true false = Ok (1, true, st6)
     /\ off_tabs st6 pre1 pre2 L bs li /\ b_level st6 = lv + 1
-    /\ b_tokens st6 = b_tokens st2 ++ li_open_at (lv + 1) :: X ++ [li_close_at (lv + 1)]
+    /\ b_tokens st6 = b_tokens st2 ++ li_open_at m (lv + 1) :: X ++ [li_close_at m (lv + 1)]
     /\ b_env st6 = b_env st2 /\ b_line st6 = 1.
 Proof.
   intros (Hsrc & HbM & HeM & HtS & HsC & HbS & HbI & HlM & HlI) Hlv L0.
@@ -240,25 +280,25 @@ Proof.
   rewrite HeM, HsC, HbM, HtS, HbS, !tb2. cbn [bind].
   replace (len pre2 + (off + 1) - off) with (len pre2 + 1) by lia.
   pose proof len_Li as LL. pose proof (len_nonneg r1). pose proof (len_nonneg pre1). pose proof (len_nonneg pre2).
-  assert (LB : list_blanks (S (length (b_src st2))) (b_src st2) (off + 1) (off + len L) (len pre2 + 1) bs = Ok (off + 1 + 1, len pre2 + 1 + 1)).
+  assert (LB : list_blanks (S (length (b_src st2))) (b_src st2) (off + 1) (off + len L) (len pre2 + 1) bs = Ok (off + 1 + Z.of_nat k, len pre2 + 1 + Z.of_nat k)).
   { rewrite (i_src st2 Hsrc).
-    destruct (length ((pre1 ++ pre2) ++ 45 :: 32 :: c1 :: r1 ++ [10])) as [|n] eqn:LS; [rewrite app_length in LS; cbn [length] in LS; lia|].
-    cbn [list_blanks].
-    assert (E1 : negb (off + 1 <? off + len L) = false) by lia. rewrite E1.
-    rewrite <- len_app, py_idx_app2. cbn [bind]. change (32 =? 9) with false. change (32 =? 32) with true. cbv iota.
-    rewrite len_app. assert (E2 : negb (off + 1 + 1 <? off + len L) = false) by lia. rewrite E2.
-    rewrite <- len_app, py_idx_app3. cbn [bind]. rewrite Hc9, Hc32. rewrite len_app. reflexivity. }
+    replace ((pre1 ++ pre2) ++ m :: sp k ++ c1 :: r1 ++ [10]) with (((pre1 ++ pre2) ++ [m]) ++ sp k ++ c1 :: r1 ++ [10]) by (rewrite <- app_assoc; reflexivity).
+    replace (off + 1) with (len ((pre1 ++ pre2) ++ [m])) by (rewrite !len_app; reflexivity).
+    apply (list_blanks_spaces c1 Hc9 Hc32).
+    - rewrite !app_length. cbn [length]. rewrite !app_length. unfold sp. rewrite repeat_length. lia.
+    - rewrite !len_app. change (len [m]) with 1. lia. }
   rewrite LB. cbn [bind].
-  assert (EM : (off + len L <=? off + 1 + 1) = false) by lia. rewrite !EM.
-  replace (len pre2 + 1 + 1 - (len pre2 + 1)) with 1 by lia. change (4 <? 1) with false. cbv iota.
+  assert (EM : (off + len L <=? off + 1 + Z.of_nat k) = false) by lia. rewrite !EM.
+  replace (len pre2 + 1 + Z.of_nat k - (len pre2 + 1)) with (Z.of_nat k) by lia.
+  assert (K4 : (4 <? Z.of_nat k) = false) by lia. rewrite K4. cbv iota.
   cbn [bpush b_tShift b_sCount b_bMarks set]. rewrite HtS, HsC, HbM, !tb2. cbn [bind]. rewrite !tb_set2. cbn [bind].
   match goal with |- context [rec ?sN 0 1] => set (stN := sN) end.
-  assert (ON : off_line stN pre1 (pre2 ++ [45; 32]) L' bs (len pre2) (lv + 2)).
+  assert (ON : off_line stN pre1 (pre2 ++ m :: sp k) L' bs (len pre2) (lv + 2)).
   { unfold off_line, stN, bpush. cbn. rewrite ?Hlv, ?HeM, ?HbM, ?HbS, ?HbI, ?HlM, ?HlI, ?Hsrc. cbn.
     change (1 <? 0) with false. change (0 <? 1) with true. cbv iota.
-    rewrite !len_app. change (len [45; 32]) with 2. rewrite !len_cons in *.
+    rewrite !len_app, !len_cons, len_sp in *. rewrite ?len_app, ?len_cons, ?len_sp.
     repeat split; try reflexivity; try (f_equal; lia); try (f_equal; [lia | f_equal; lia]); try (f_equal; f_equal; lia); try lia.
-    cbn [app]. rewrite <- !app_assoc. reflexivity. }
+    rewrite <- !app_assoc. cbn [app]. rewrite <- ?app_assoc. reflexivity. }
   assert (LN : b_line stN = 0) by exact L0.
   destruct (HREC stN ON LN) as (st3 & TK & O3 & T3 & E3 & L3 & TT3).
   rewrite TK. cbn [bind].
@@ -270,9 +310,9 @@ Proof.
   eexists. split; [reflexivity|].
   split; [|split; [|split; [|split]]].
   - unfold off_tabs. cbn. rewrite ?Hsrc3, ?HbM3, ?HeM3, ?HbS3, ?HlI3, ?HlM3, ?HlI.
-    rewrite !len_app. change (len [45; 32]) with 2. rewrite !len_cons in *.
+    rewrite !len_app, !len_cons, len_sp in *. rewrite ?len_app, ?len_cons, ?len_sp.
     repeat split; try reflexivity; try (f_equal; lia); try (f_equal; [lia | f_equal; lia]); try (f_equal; f_equal; lia); try lia.
-    cbn [app]. rewrite <- !app_assoc. reflexivity.
+    rewrite <- !app_assoc. cbn [app]. rewrite <- ?app_assoc. reflexivity.
   - cbn. rewrite Hlv3. change (-1 <? 0) with true. change (0 <? -1) with false. cbv iota. lia.
   - cbn. rewrite T3. unfold stN. cbn. rewrite Hlv3, Hlv.
     change (1 <? 0) with false. change (0 <? 1) with true. change (-1 <? 0) with true. change (0 <? -1) with false. cbv iota.
@@ -285,33 +325,33 @@ Qed.
 (* markTightParagraphs on the finished list: given by the caller for the inner tokens at hand *)
 Context (X' : list token).
 Context (HMT : forall A,
-  mark_tight (S (length (A ++ ul_open_at lv :: li_open_at (lv + 1) :: X ++ [li_close_at (lv + 1); ul_close_at lv])))
-             (A ++ ul_open_at lv :: li_open_at (lv + 1) :: X ++ [li_close_at (lv + 1); ul_close_at lv])
-             (Z.of_nat (length A) + 2) (len (A ++ ul_open_at lv :: li_open_at (lv + 1) :: X ++ [li_close_at (lv + 1); ul_close_at lv]) - 2) (lv + 2)
-  = A ++ ul_open_at lv :: li_open_at (lv + 1) :: X' ++ [li_close_at (lv + 1); ul_close_at lv]).
+  mark_tight (S (length (A ++ ul_open_at m lv :: li_open_at m (lv + 1) :: X ++ [li_close_at m (lv + 1); ul_close_at m lv])))
+             (A ++ ul_open_at m lv :: li_open_at m (lv + 1) :: X ++ [li_close_at m (lv + 1); ul_close_at m lv])
+             (Z.of_nat (length A) + 2) (len (A ++ ul_open_at m lv :: li_open_at m (lv + 1) :: X ++ [li_close_at m (lv + 1); ul_close_at m lv]) - 2) (lv + 2)
+  = A ++ ul_open_at m lv :: li_open_at m (lv + 1) :: X' ++ [li_close_at m (lv + 1); ul_close_at m lv]).
 
 Lemma i_skip_ordered st : off_line st pre1 pre2 L bs li lv -> skip_ordered st 0 = Ok (-1).
 Proof.
   intros H. unfold skip_ordered. rewrite (QuoteLine.ls0 _ _ _ _ _ _ st H), (QuoteLine.em0 _ _ _ _ _ _ st H). cbn [bind].
   match goal with |- (if ?c then _ else _) = _ => destruct c end; [reflexivity|].
   destruct H as (Hsrc & _). rewrite (i_src st Hsrc), <- len_app, py_idx_app. cbn [bind].
-  change (negb (is_digit 45)) with true. reflexivity.
+  assert (E : negb (is_digit m) = true) by (unfold is_digit; lia). rewrite E. reflexivity.
 Qed.
 
 Lemma i_skip_bullet st : off_line st pre1 pre2 L bs li lv -> skip_bullet st 0 = Ok (off + 1).
 Proof.
   intros H. unfold skip_bullet. rewrite (QuoteLine.ls0 _ _ _ _ _ _ st H), (QuoteLine.em0 _ _ _ _ _ _ st H). cbn [bind].
-  destruct H as (Hsrc & _). rewrite (i_src st Hsrc), <- len_app, char_at_app.
-  change (negb ((45 =? 42) || (45 =? 45) || (45 =? 43))) with false. cbv iota.
+  destruct H as (Hsrc & _). pose proof (i_second st Hsrc) as SEC. rewrite (i_src st Hsrc) in *. rewrite <- len_app, char_at_app.
+  assert (E0 : negb ((m =? 42) || (m =? 45) || (m =? 43)) = false) by lia. rewrite E0. cbv iota.
   pose proof len_Li. pose proof (len_nonneg r1).
   assert (E : (len (pre1 ++ pre2) + 1 <? len (pre1 ++ pre2) + len L) = true) by lia. rewrite E.
-  rewrite py_idx_app2. cbn [bind]. reflexivity.
+  rewrite len_app. rewrite SEC. cbn [bind]. reflexivity.
 Qed.
 
 Lemma r_list_off term st : off_line st pre1 pre2 L bs li lv -> b_line st = 0 ->
   exists st', r_list cfg rec term st 0 1 false = Ok (true, st')
     /\ off_line st' pre1 pre2 L bs li lv
-    /\ b_tokens st' = b_tokens st ++ ul_open_at lv :: li_open_at (lv + 1) :: X' ++ [li_close_at (lv + 1); ul_close_at lv]
+    /\ b_tokens st' = b_tokens st ++ ul_open_at m lv :: li_open_at m (lv + 1) :: X' ++ [li_close_at m (lv + 1); ul_close_at m lv]
     /\ b_env st' = b_env st /\ b_line st' = 1.
 Proof.
   intros H L0. pose proof H as H'. destruct H' as (Hsrc & HbM & HeM & HtS & HsC & HbS & HbI & HlM & HlI & Hlv).
@@ -324,10 +364,10 @@ Proof.
   assert (E0 : (0 <=? off + 1) = true) by lia. rewrite E0. cbv iota. cbn [bind].
   rewrite (QuoteLine.em0 _ _ _ _ _ _ st H). cbn [bind andb]. cbv iota.
   replace (off + 1 - 1) with off by lia.
-  assert (PM : py_idx (b_src st) off = Ok 45) by (rewrite (i_src st Hsrc), <- len_app; apply py_idx_app).
+  assert (PM : py_idx (b_src st) off = Ok m) by (rewrite (i_src st Hsrc), <- len_app; apply py_idx_app).
   rewrite PM. cbn [bind]. cbv iota.
   change (Z.to_nat (1 - 0)) with 1%nat.
-  match goal with |- context [list_items cfg 2 rec term ?s2 false 45 0 0 1 (off + 1) off true false] => set (st2 := s2) end.
+  match goal with |- context [list_items cfg 2 rec term ?s2 false m 0 0 1 (off + 1) off true false] => set (st2 := s2) end.
   assert (TL : off_tabs st2 pre1 pre2 L bs li) by (unfold off_tabs, st2, st_parent, bpush; cbn; repeat split; assumption).
   assert (LV : b_level st2 = lv + 1) by (unfold st2, st_parent, bpush; cbn; rewrite Hlv; change (1 <? 0) with false; change (0 <? 1) with true; reflexivity).
   assert (L2 : b_line st2 = 0) by exact L0.
@@ -349,20 +389,20 @@ Qed.
 
 End ItemStep.
 
-(* ---- nothing before the list rule claims a line that starts with "- " and has a character that is neither
-   a hyphen nor a blank ---- *)
-Lemma hr_scan_stop : forall (a P : str) c rest fuel mx cnt,
-  Forall (fun x => x = 45 \/ is_space x = true) a -> c <> 45 -> is_space c = false ->
+(* ---- nothing before the list rule claims a line that starts with a bullet marker and blanks and has a character
+   that is neither that marker nor a blank ---- *)
+Lemma hr_scan_stop mk : forall (a P : str) c rest fuel mx cnt,
+  Forall (fun x => x = mk \/ is_space x = true) a -> c <> mk -> is_space c = false ->
   len P + len a < mx -> (length a < fuel)%nat ->
-  hr_scan fuel (P ++ a ++ c :: rest) (len P) mx 45 cnt = Ok None.
+  hr_scan fuel (P ++ a ++ c :: rest) (len P) mx mk cnt = Ok None.
 Proof.
   induction a as [|x a IH]; intros P c rest fuel mx cnt Fa Hc Hs Hm Hf; (destruct fuel as [|f]; [cbn [length] in Hf; lia|]); cbn [hr_scan app].
   - change (len (@nil Z)) with 0 in Hm. assert (E : negb (len P <? mx) = false) by lia. rewrite E.
-    rewrite py_idx_app. cbn [bind]. assert (N : (c =? 45) = false) by lia. rewrite N, Hs. reflexivity.
+    rewrite py_idx_app. cbn [bind]. assert (N : (c =? mk) = false) by lia. rewrite N, Hs. reflexivity.
   - rewrite len_cons in Hm. pose proof (len_nonneg a). assert (E : negb (len P <? mx) = false) by lia. rewrite E.
     rewrite py_idx_app. cbn [bind]. inversion Fa as [|? ? Hx Fa']; subst.
-    assert (C : negb (x =? 45) && negb (is_space x) = false).
-    { destruct Hx as [->|Hx]; [reflexivity | rewrite Hx; apply Bool.andb_false_r]. }
+    assert (C : negb (x =? mk) && negb (is_space x) = false).
+    { destruct Hx as [->|Hx]; [rewrite Z.eqb_refl; reflexivity | rewrite Hx; apply Bool.andb_false_r]. }
     rewrite C.
     replace (P ++ x :: a ++ c :: rest) with ((P ++ [x]) ++ a ++ c :: rest) by (rewrite <- app_assoc; reflexivity).
     replace (len P + 1) with (len (P ++ [x])) by (rewrite len_app; reflexivity).
@@ -371,40 +411,43 @@ Qed.
 
 Section ItemBefore.
 Context (cfg : bcfg) (rf cf : str -> str).
-Context (pre1 pre2 : str) (c1 : Z) (r1 : str) (bs li lv : Z).
+Context (pre1 pre2 : str) (m : Z) (k : nat) (c1 : Z) (r1 : str) (bs li lv : Z).
+Context (Hm : m = 42 \/ m = 45 \/ m = 43).
 Context (a : str) (c : Z) (b : str).
-Context (HL' : c1 :: r1 = a ++ c :: b) (Ha : Forall (fun x => x = 45 \/ is_space x = true) a) (Hc : c <> 45) (Hcs : is_space c = false).
-Notation L := (45 :: 32 :: c1 :: r1).
+Context (HL' : c1 :: r1 = a ++ c :: b) (Ha : Forall (fun x => x = m \/ is_space x = true) a) (Hc : c <> m) (Hcs : is_space c = false).
+Notation L := (m :: sp k ++ c1 :: r1).
 Notation off := (len pre1 + len pre2).
 
 Lemma ib_fence_fail st : off_line st pre1 pre2 L bs li lv -> r_fence cfg st 0 1 false = Ok (false, st).
 Proof.
   intros H. unfold r_fence. rewrite (QuoteLine.ls0 _ _ _ _ _ _ st H), (QuoteLine.em0 _ _ _ _ _ _ st H), (QuoteLine.cb0 cfg _ _ _ _ _ _ st H). cbn [bind]. cbv iota.
   match goal with |- (if ?x then _ else _) = _ => destruct x end; [reflexivity|].
-  destruct H as (Hsrc & _). rewrite (i_src pre1 pre2 c1 r1 st Hsrc), <- len_app, py_idx_app. cbn [bind].
-  change (negb ((45 =? 126) || (45 =? 96))) with true. reflexivity.
+  destruct H as (Hsrc & _). rewrite (i_src pre1 pre2 m k c1 r1 st Hsrc), <- len_app, py_idx_app. cbn [bind].
+  assert (E : negb ((m =? 126) || (m =? 96)) = true) by lia. rewrite E. reflexivity.
 Qed.
 
 Lemma ib_blockquote_fail rec term st : off_line st pre1 pre2 L bs li lv -> r_blockquote cfg rec term st 0 1 false = Ok (false, st).
 Proof.
   intros H. unfold r_blockquote. rewrite (QuoteLine.ls0 _ _ _ _ _ _ st H), (QuoteLine.em0 _ _ _ _ _ _ st H), (QuoteLine.cb0 cfg _ _ _ _ _ _ st H). cbn [bind]. cbv iota.
-  destruct H as (Hsrc & _). rewrite (i_src pre1 pre2 c1 r1 st Hsrc), <- len_app, char_at_app. reflexivity.
+  rewrite match_some_62.
+  destruct H as (Hsrc & _). rewrite (i_src pre1 pre2 m k c1 r1 st Hsrc), <- len_app, char_at_app.
+  assert (E : (m =? 62) = false) by lia. rewrite E. reflexivity.
 Qed.
 
 Lemma ib_hr_fail st : off_line st pre1 pre2 L bs li lv -> r_hr cfg st 0 1 false = Ok (false, st).
 Proof.
   intros H. unfold r_hr. rewrite (QuoteLine.ls0 _ _ _ _ _ _ st H), (QuoteLine.em0 _ _ _ _ _ _ st H), (QuoteLine.cb0 cfg _ _ _ _ _ _ st H). cbn [bind]. cbv iota.
-  destruct H as (Hsrc & _). rewrite (i_src pre1 pre2 c1 r1 st Hsrc), <- len_app, char_at_app.
-  change (negb ((45 =? 42) || (45 =? 45) || (45 =? 95))) with false. cbv iota.
-  assert (SRC : (pre1 ++ pre2) ++ 45 :: 32 :: c1 :: r1 ++ [10] = ((pre1 ++ pre2) ++ [45]) ++ (32 :: a) ++ c :: b ++ [10]).
+  destruct H as (Hsrc & _). rewrite (i_src pre1 pre2 m k c1 r1 st Hsrc), <- len_app, char_at_app.
+  destruct (negb ((m =? 42) || (m =? 45) || (m =? 95))) eqn:EM; [reflexivity|].
+  assert (SRC : (pre1 ++ pre2) ++ m :: sp k ++ c1 :: r1 ++ [10] = ((pre1 ++ pre2) ++ [m]) ++ (sp k ++ a) ++ c :: b ++ [10]).
   { change (c1 :: r1 ++ [10]) with ((c1 :: r1) ++ [10]). rewrite HL'. rewrite <- !app_assoc. cbn [app]. rewrite <- ?app_assoc. cbn [app]. reflexivity. }
   rewrite SRC.
-  replace (len (pre1 ++ pre2) + 1) with (len ((pre1 ++ pre2) ++ [45])) by (rewrite len_app; reflexivity).
+  replace (len (pre1 ++ pre2) + 1) with (len ((pre1 ++ pre2) ++ [m])) by (rewrite len_app; reflexivity).
   rewrite hr_scan_stop; [reflexivity| | exact Hc | exact Hcs | |].
-  - constructor; [right; reflexivity | exact Ha].
+  - apply Forall_app. split; [|exact Ha]. unfold sp. apply Forall_forall. intros x I. apply repeat_spec in I. subst x. right. reflexivity.
   - assert (LL : len (c1 :: r1) = len a + 1 + len b) by (rewrite HL', len_app, len_cons; lia).
-    rewrite len_cons in LL. rewrite !len_app, !len_cons. change (len (@nil Z)) with 0. pose proof (len_nonneg b). lia.
-  - rewrite !app_length. cbn [length]. rewrite !app_length. cbn [length]. lia.
+    rewrite len_cons in LL. rewrite !len_app, !len_cons, !len_app, !len_cons, len_sp. change (len (@nil Z)) with 0. pose proof (len_nonneg b). lia.
+  - rewrite ?app_length. cbn [length]. rewrite ?app_length. cbn [length]. rewrite ?app_length. cbn [length]. lia.
 Qed.
 
 Lemma ib_before_fail rec term n st : n = nm_table \/ n = nm_code \/ n = nm_fence \/ n = nm_blockquote \/ n = nm_hr ->
@@ -448,18 +491,18 @@ Lemma update_nth_tok_app_r f (A l : list token) k : update_nth_tok (length A + k
 Proof. unfold update_nth_tok. induction A as [|y A IH]; cbn [length app Nat.add]; [reflexivity | f_equal; exact IH]. Qed.
 
 (* a list whose item holds the paragraph directly: the paragraph tokens get hidden *)
-Lemma mark_tight_para s lv (A : list token) :
-  mark_tight (S (length (A ++ ul_open_at lv :: li_open_at (lv + 1) :: para_tokens s (lv + 2) ++ [li_close_at (lv + 1); ul_close_at lv])))
-             (A ++ ul_open_at lv :: li_open_at (lv + 1) :: para_tokens s (lv + 2) ++ [li_close_at (lv + 1); ul_close_at lv])
-             (Z.of_nat (length A) + 2) (len (A ++ ul_open_at lv :: li_open_at (lv + 1) :: para_tokens s (lv + 2) ++ [li_close_at (lv + 1); ul_close_at lv]) - 2) (lv + 2)
-  = A ++ ul_open_at lv :: li_open_at (lv + 1) :: hide_para (para_tokens s (lv + 2)) ++ [li_close_at (lv + 1); ul_close_at lv].
+Lemma mark_tight_para s m lv (A : list token) :
+  mark_tight (S (length (A ++ ul_open_at m lv :: li_open_at m (lv + 1) :: para_tokens s (lv + 2) ++ [li_close_at m (lv + 1); ul_close_at m lv])))
+             (A ++ ul_open_at m lv :: li_open_at m (lv + 1) :: para_tokens s (lv + 2) ++ [li_close_at m (lv + 1); ul_close_at m lv])
+             (Z.of_nat (length A) + 2) (len (A ++ ul_open_at m lv :: li_open_at m (lv + 1) :: para_tokens s (lv + 2) ++ [li_close_at m (lv + 1); ul_close_at m lv]) - 2) (lv + 2)
+  = A ++ ul_open_at m lv :: li_open_at m (lv + 1) :: hide_para (para_tokens s (lv + 2)) ++ [li_close_at m (lv + 1); ul_close_at m lv].
 Proof.
   unfold para_tokens, hide_para. cbn [app].
   set (po := map_tok 0 1 (set_level (set_block (new_token [112; 97; 114; 97; 103; 114; 97; 112; 104; 95; 111; 112; 101; 110] [112] 1) true) (lv + 2))).
   set (inl := set_children (map_tok 0 1 (set_content (set_level (set_block (new_token s_inline [] 0) true) (lv + 2 + 1)) s)) (Some [])).
   set (pc := set_level (set_block (new_token [112; 97; 114; 97; 103; 114; 97; 112; 104; 95; 99; 108; 111; 115; 101] [112] (-1)) true) (lv + 2)).
-  set (rest := [ul_open_at lv; li_open_at (lv + 1); po; inl; pc; li_close_at (lv + 1); ul_close_at lv]).
-  change (ul_open_at lv :: li_open_at (lv + 1) :: po :: inl :: pc :: [li_close_at (lv + 1); ul_close_at lv]) with rest.
+  set (rest := [ul_open_at m lv; li_open_at m (lv + 1); po; inl; pc; li_close_at m (lv + 1); ul_close_at m lv]).
+  change (ul_open_at m lv :: li_open_at m (lv + 1) :: po :: inl :: pc :: [li_close_at m (lv + 1); ul_close_at m lv]) with rest.
   assert (LN : len (A ++ rest) - 2 = Z.of_nat (length A) + 5) by (unfold len; rewrite app_length; change (length rest) with 7%nat; lia).
   rewrite LN. rewrite app_length. change (length rest) with 7%nat.
   replace (S (length A + 7)) with (S (S (length A + 6))) by lia. unfold mark_tight; fold mark_tight.
@@ -475,10 +518,12 @@ Proof.
 Qed.
 
 (* ---- containers within containers ---- *)
-Inductive ctr := CQ | CI.
-Definition cpre (c : ctr) : str := match c with CQ => [62; 32] | CI => [45; 32] end.
+(* a block quote marker "> ", or a bullet marker m followed by k spaces *)
+Inductive ctr := CQ | CI (m : Z) (k : nat).
+Definition okc (c : ctr) : Prop := match c with CQ => True | CI m k => (m = 42 \/ m = 45 \/ m = 43) /\ (1 <= k <= 4)%nat end.
+Definition cpre (c : ctr) : str := match c with CQ => [62; 32] | CI m k => m :: sp k end.
 Fixpoint prefix (cs : list ctr) : str := match cs with [] => [] | c :: r => cpre c ++ prefix r end.
-Fixpoint weight (cs : list ctr) : Z := match cs with [] => 0 | CQ :: r => 1 + weight r | CI :: r => 2 + weight r end.
+Fixpoint weight (cs : list ctr) : Z := match cs with [] => 0 | CQ :: r => 1 + weight r | CI _ _ :: r => 2 + weight r end.
 
 Lemma try_rules_skip cfg rf cf rec : forall l rest st,
   (forall n, In n l -> apply_rule cfg rf cf rec (terminated cfg rf cf) n st 0 1 false = Ok (false, st)) ->
@@ -502,7 +547,7 @@ Fixpoint wrap (cs : list ctr) (lv : Z) (hid : bool) : list token :=
   match cs with
   | [] => if hid then hide_para (para_tokens s lv) else para_tokens s lv
   | CQ :: r => bq_open_at lv :: wrap r (lv + 1) false ++ [bq_close_at lv]
-  | CI :: r => ul_open_at lv :: li_open_at (lv + 1) :: wrap r (lv + 2) true ++ [li_close_at (lv + 1); ul_close_at lv]
+  | CI m _ :: r => ul_open_at m lv :: li_open_at m (lv + 1) :: wrap r (lv + 2) true ++ [li_close_at m (lv + 1); ul_close_at m lv]
   end.
 
 Lemma wrap_hid c r lv h : wrap (c :: r) lv h = wrap (c :: r) lv false.
@@ -510,30 +555,36 @@ Proof. destruct c; reflexivity. Qed.
 
 (* the first character of the rest of the line is never a blank; and somewhere there is a character that is neither a
    hyphen nor a blank *)
-Lemma rest_head cs : exists c1 r1, prefix cs ++ s = c1 :: r1 /\ is_space c1 = false /\ (c1 =? 9) = false /\ (c1 =? 32) = false.
+Lemma rest_head cs : Forall okc cs -> exists c1 r1, prefix cs ++ s = c1 :: r1 /\ is_space c1 = false /\ (c1 =? 9) = false /\ (c1 =? 32) = false.
 Proof.
-  destruct cs as [|[|] cs]; cbn [prefix cpre app].
+  intros F. destruct cs as [|[|m k] cs]; cbn [prefix cpre app]; rewrite <- ?app_assoc; cbn [app].
   - destruct (s_facts s Hs) as (c0 & body & E & L & _). destruct (letter_not_space c0 L) as [Hsp _].
     exists c0, body. split; [exact E|]. split; [exact Hsp|]. unfold letter in L. split; lia.
   - eexists _, _. split; [reflexivity|]. repeat split.
-  - eexists _, _. split; [reflexivity|]. repeat split.
+  - inversion F as [|? ? OK _]; subst. destruct OK as [Hm _]. eexists _, _. split; [reflexivity|]. unfold is_space. repeat split; lia.
 Qed.
 
-Lemma rest_hr : forall cs, exists a c b, prefix cs ++ s = a ++ c :: b /\ Forall (fun x => x = 45 \/ is_space x = true) a /\ c <> 45 /\ is_space c = false.
+(* for a bullet marker mk: somewhere in the rest of the line there is a character that is neither mk nor a blank *)
+Lemma rest_hr mk : mk = 42 \/ mk = 45 \/ mk = 43 -> forall cs, Forall okc cs ->
+  exists a c b, prefix cs ++ s = a ++ c :: b /\ Forall (fun x => x = mk \/ is_space x = true) a /\ c <> mk /\ is_space c = false.
 Proof.
-  induction cs as [|[|] cs IH]; cbn [prefix cpre app].
+  intros Hmk. induction cs as [|[|m k] cs IH]; intros F; cbn [prefix cpre app]; rewrite <- ?app_assoc; cbn [app].
   - destruct (s_facts s Hs) as (c0 & body & E & L & _). destruct (letter_not_space c0 L) as [Hsp _].
     exists [], c0, body. split; [exact E|]. split; [constructor|]. split; [unfold letter in L; lia | exact Hsp].
-  - exists [], 62, (32 :: prefix cs ++ s). split; [reflexivity|]. split; [constructor|]. split; [discriminate | reflexivity].
-  - destruct IH as (a & c & b & E & Fa & Hc & Hcs). exists (45 :: 32 :: a), c, b. rewrite E. split; [reflexivity|].
-    split; [constructor; [left; reflexivity | constructor; [right; reflexivity | exact Fa]] | split; assumption].
+  - exists [], 62, (32 :: prefix cs ++ s). split; [reflexivity|]. split; [constructor|]. split; [lia | reflexivity].
+  - inversion F as [|? ? OK F']; subst. destruct OK as [Hm _].
+    destruct (Z.eq_dec m mk) as [->|NE].
+    + destruct (IH F') as (a & c & b & E & Fa & Hc & Hcs). exists (mk :: sp k ++ a), c, b. rewrite E. split; [cbn [app]; rewrite <- ?app_assoc; reflexivity|].
+      split; [|split; assumption]. constructor; [left; reflexivity|]. apply Forall_app. split; [|exact Fa].
+      unfold sp. apply Forall_forall. intros x I. apply repeat_spec in I. subst x. right. reflexivity.
+    + exists [], m, (sp k ++ prefix cs ++ s). split; [reflexivity|]. split; [constructor|]. split; [exact NE | unfold is_space; lia].
 Qed.
 
 (* every token of a wrapped paragraph below level lvl is not a paragraph_open at level lvl *)
 Lemma wrap_np : forall cs lv h lvl, lvl < lv -> Forall (NP lvl) (wrap cs lv h).
 Proof.
   assert (LVL : forall t lvl, lvl <> tlevel t -> NP lvl t) by (intros t lvl H; unfold NP; assert (E : (tlevel t =? lvl) = false) by lia; rewrite E; reflexivity).
-  induction cs as [|[|] cs IH]; intros lv h lvl Hl; cbn [wrap].
+  induction cs as [|[|m k] cs IH]; intros lv h lvl Hl; cbn [wrap].
   - destruct h; unfold hide_para, para_tokens; repeat constructor; apply LVL; cbn; lia.
   - constructor; [apply LVL; cbn; lia|]. apply Forall_app. split; [apply IH; lia | repeat constructor; apply LVL; cbn; lia].
   - constructor; [apply LVL; cbn; lia|]. constructor; [apply LVL; cbn; lia|]. apply Forall_app. split; [apply IH; lia | repeat constructor; apply LVL; cbn; lia].
@@ -550,17 +601,17 @@ Proof.
 Qed.
 
 (* markTightParagraphs on a finished item *)
-Lemma mark_tight_wrap cs lv (A : list token) :
-  mark_tight (S (length (A ++ ul_open_at lv :: li_open_at (lv + 1) :: wrap cs (lv + 2) false ++ [li_close_at (lv + 1); ul_close_at lv])))
-             (A ++ ul_open_at lv :: li_open_at (lv + 1) :: wrap cs (lv + 2) false ++ [li_close_at (lv + 1); ul_close_at lv])
-             (Z.of_nat (length A) + 2) (len (A ++ ul_open_at lv :: li_open_at (lv + 1) :: wrap cs (lv + 2) false ++ [li_close_at (lv + 1); ul_close_at lv]) - 2) (lv + 2)
-  = A ++ ul_open_at lv :: li_open_at (lv + 1) :: wrap cs (lv + 2) true ++ [li_close_at (lv + 1); ul_close_at lv].
+Lemma mark_tight_wrap m cs lv (A : list token) :
+  mark_tight (S (length (A ++ ul_open_at m lv :: li_open_at m (lv + 1) :: wrap cs (lv + 2) false ++ [li_close_at m (lv + 1); ul_close_at m lv])))
+             (A ++ ul_open_at m lv :: li_open_at m (lv + 1) :: wrap cs (lv + 2) false ++ [li_close_at m (lv + 1); ul_close_at m lv])
+             (Z.of_nat (length A) + 2) (len (A ++ ul_open_at m lv :: li_open_at m (lv + 1) :: wrap cs (lv + 2) false ++ [li_close_at m (lv + 1); ul_close_at m lv]) - 2) (lv + 2)
+  = A ++ ul_open_at m lv :: li_open_at m (lv + 1) :: wrap cs (lv + 2) true ++ [li_close_at m (lv + 1); ul_close_at m lv].
 Proof.
   destruct cs as [|c cs]; [apply mark_tight_para|].
   rewrite (wrap_hid c cs (lv + 2) true).
   set (Q := wrap (c :: cs) (lv + 2) false).
-  replace (A ++ ul_open_at lv :: li_open_at (lv + 1) :: Q ++ [li_close_at (lv + 1); ul_close_at lv])
-    with ((A ++ [ul_open_at lv; li_open_at (lv + 1)]) ++ Q ++ [li_close_at (lv + 1); ul_close_at lv]) by (rewrite <- app_assoc; reflexivity).
+  replace (A ++ ul_open_at m lv :: li_open_at m (lv + 1) :: Q ++ [li_close_at m (lv + 1); ul_close_at m lv])
+    with ((A ++ [ul_open_at m lv; li_open_at m (lv + 1)]) ++ Q ++ [li_close_at m (lv + 1); ul_close_at m lv]) by (rewrite <- app_assoc; reflexivity).
   apply mark_tight_noop.
   - apply wrap_np_head.
   - rewrite app_length. cbn [length]. lia.
@@ -582,17 +633,18 @@ Proof.
     + constructor; [reflexivity | exact HCn].
 Qed.
 
-Theorem nest : forall cs pre1 pre2 bs li lv d,
+Theorem nest : forall cs, Forall okc cs -> forall pre1 pre2 bs li lv d,
   (forall x, In x pre2 -> x <> 9) -> lv + weight cs < c_maxNesting cfg -> (length cs <= d)%nat ->
   rec_adds (tokenize cfg rf cf (S d)) pre1 pre2 (prefix cs ++ s) bs li lv (wrap cs lv false).
 Proof.
-  induction cs as [|c cs IH]; intros pre1 pre2 bs li lv d Hp2 Hw Hd st O0 L0.
+  induction cs as [|c cs IH]; intros FO pre1 pre2 bs li lv d Hp2 Hw Hd st O0 L0.
   - cbn [prefix app wrap] in *. cbn [weight] in Hw.
     exact (tokenize_off_line cfg rf cf pre1 pre2 s bs li lv Hs Hp2 rpre RD HR' Hpre' ltac:(lia) d st O0 L0).
   - destruct d as [|d]; [cbn [length] in Hd; lia|]. cbn [length] in Hd.
-    destruct (rest_head cs) as (c1 & r1 & EL & Hsp & H9 & H32).
+    inversion FO as [|? ? OKc FO']; subst. specialize (IH FO').
+    destruct (rest_head cs FO') as (c1 & r1 & EL & Hsp & H9 & H32).
     assert (WP : 0 <= weight cs) by (clear; induction cs as [|[|] cs IH]; cbn [weight]; lia).
-    destruct c; cbn [prefix cpre app wrap] in *; cbn [weight] in Hw; rewrite EL in *.
+    destruct c as [|m k]; cbn [prefix cpre app wrap] in *; cbn [weight] in Hw; rewrite <- ?app_assoc in *; rewrite EL in *.
     + (* a block quote marker *)
       assert (REC : rec_adds (tokenize cfg rf cf (S d)) (pre1 ++ pre2 ++ [62; 32]) [] (c1 :: r1) (bs + len pre2 + 1 + 1) li (lv + 1) (wrap cs (lv + 1) false)).
       { exact (IH (pre1 ++ pre2 ++ [62; 32]) [] (bs + len pre2 + 1 + 1) li (lv + 1) d (fun x (H : In x []) => match H with end) ltac:(lia) ltac:(lia)). }
@@ -610,14 +662,15 @@ Proof.
       rewrite (tokenize_one cfg rf cf pre1 pre2 _ bs li lv HL ltac:(lia) (S d) st st2 O0 L0 TR O2 L2).
       eexists. split; [reflexivity|]. split; [exact O2|]. split; [exact T2|]. split; [exact E2|]. split; [exact L2 | reflexivity].
     + (* a bullet marker *)
-      assert (REC : rec_adds (tokenize cfg rf cf (S d)) pre1 (pre2 ++ [45; 32]) (c1 :: r1) bs (len pre2) (lv + 2) (wrap cs (lv + 2) false)).
-      { assert (HP : forall x, In x (pre2 ++ [45; 32]) -> x <> 9).
-        { intros x I. apply in_app_or in I. destruct I as [I|[<-|[<-|[]]]]; [exact (Hp2 x I) | discriminate | discriminate]. }
-        exact (IH pre1 (pre2 ++ [45; 32]) bs (len pre2) (lv + 2) d HP ltac:(lia) ltac:(lia)). }
-      assert (O1 : off_line (st_line st 0) pre1 pre2 (45 :: 32 :: c1 :: r1) bs li lv) by (unfold off_line, st_line in *; cbn; exact O0).
-      destruct (r_list_off cfg pre1 pre2 c1 r1 bs li lv H9 H32 (tokenize cfg rf cf (S d)) _ REC (wrap cs (lv + 2) true) (mark_tight_wrap cs lv)
+      destruct OKc as [Hm Hk].
+      assert (REC : rec_adds (tokenize cfg rf cf (S d)) pre1 (pre2 ++ m :: sp k) (c1 :: r1) bs (len pre2) (lv + 2) (wrap cs (lv + 2) false)).
+      { assert (HP : forall x, In x (pre2 ++ m :: sp k) -> x <> 9).
+        { intros x I. apply in_app_or in I. destruct I as [I|[<-|I]]; [exact (Hp2 x I) | lia | unfold sp in I; apply repeat_spec in I; subst x; discriminate]. }
+        exact (IH pre1 (pre2 ++ m :: sp k) bs (len pre2) (lv + 2) d HP ltac:(lia) ltac:(lia)). }
+      assert (O1 : off_line (st_line st 0) pre1 pre2 (m :: sp k ++ c1 :: r1) bs li lv) by (unfold off_line, st_line in *; cbn; exact O0).
+      destruct (r_list_off cfg pre1 pre2 m k c1 r1 bs li lv Hm Hk H9 H32 (tokenize cfg rf cf (S d)) _ REC (wrap cs (lv + 2) true) (mark_tight_wrap m cs lv)
                            (terminated cfg rf cf) (st_line st 0) O1 eq_refl) as (st2 & RL2 & O2 & T2 & E2 & L2).
-      destruct (rest_hr cs) as (a & c & b & EA & Fa & Hc & Hcs). rewrite EL in EA.
+      destruct (rest_hr m Hm cs FO') as (a & c & b & EA & Fa & Hc & Hcs). rewrite EL in EA.
       assert (TR : try_rules cfg rf cf (tokenize cfg rf cf (S d)) (c_rules cfg) (st_line st 0) 0 1 = Ok st2).
       { rewrite HC.
         replace (RA ++ nm_blockquote :: RB ++ nm_list :: RC ++ nm_paragraph :: RD) with ((RA ++ nm_blockquote :: RB) ++ nm_list :: RC ++ nm_paragraph :: RD)
@@ -628,12 +681,12 @@ Proof.
           change (str_eqb nm_list nm_fence) with false. change (str_eqb nm_list nm_blockquote) with false.
           change (str_eqb nm_list nm_hr) with false. change (str_eqb nm_list nm_list) with true. cbv iota.
           rewrite RL2. reflexivity.
-        - intros n I. apply (ib_before_fail cfg rf cf pre1 pre2 c1 r1 bs li lv a c b EA Fa Hc Hcs); [|exact O1].
+        - intros n I. apply (ib_before_fail cfg rf cf pre1 pre2 m k c1 r1 bs li lv Hm a c b EA Fa Hc Hcs); [|exact O1].
           apply in_app_or in I. rewrite Forall_forall in HA, HB. destruct I as [I|[<-|I]].
           + destruct (HA n I) as [->|[->| ->]]; tauto.
           + tauto.
           + destruct (HB n I) as [->|[->|[->| ->]]]; tauto. }
-      assert (HL : 0 < len (45 :: 32 :: c1 :: r1)) by (rewrite !len_cons; pose proof (len_nonneg r1); lia).
+      assert (HL : 0 < len (m :: sp k ++ c1 :: r1)) by (rewrite len_cons, len_app, len_sp, len_cons; pose proof (len_nonneg r1); lia).
       rewrite (tokenize_one cfg rf cf pre1 pre2 _ bs li lv HL ltac:(lia) (S d) st st2 O0 L0 TR O2 L2).
       eexists. split; [reflexivity|]. split; [exact O2|]. split; [exact T2|]. split; [exact E2|]. split; [exact L2 | reflexivity].
 Qed.
@@ -675,26 +728,27 @@ Context (HA : Forall (fun n => n = nm_table \/ n = nm_code \/ n = nm_fence) RA).
 Context (HB : Forall (fun n => n = nm_table \/ n = nm_code \/ n = nm_fence \/ n = nm_hr) RB).
 Context (HCn : Forall (fun n => str_eqb n nm_paragraph = false) RC).
 
-Lemma rest_nolf : forall cs x, In x (prefix cs ++ s) -> x <> 10.
+Lemma rest_nolf : forall cs, Forall okc cs -> forall x, In x (prefix cs ++ s) -> x <> 10.
 Proof.
-  induction cs as [|[|] cs IH]; intros x I; cbn [prefix cpre app] in I.
+  induction cs as [|[|m k] cs IH]; intros F x I; cbn [prefix cpre app] in I; rewrite <- ?app_assoc in I; cbn [app] in I.
   - destruct (s_facts s Hs) as (c0 & body & E & L & B & _). destruct (letter_not_space c0 L) as [_ Hn].
     rewrite E in I. destruct I as [<-|I]; [exact Hn | exact (B x I)].
-  - destruct I as [<-|[<-|I]]; [discriminate | discriminate | exact (IH x I)].
-  - destruct I as [<-|[<-|I]]; [discriminate | discriminate | exact (IH x I)].
+  - inversion F; subst. destruct I as [<-|[<-|I]]; [discriminate | discriminate | apply IH; assumption].
+  - inversion F as [|? ? OK F']; subst. destruct OK as [Hm _]. destruct I as [<-|I]; [lia|].
+    apply in_app_or in I. destruct I as [I|I]; [unfold sp in I; apply repeat_spec in I; subst x; discriminate | apply IH; assumption].
 Qed.
 
 Lemma length_weight : forall cs, Z.of_nat (length cs) <= weight cs.
-Proof. induction cs as [|[|] cs IH]; cbn [length weight]; lia. Qed.
+Proof. induction cs as [|[|m k] cs IH]; cbn [length weight]; lia. Qed.
 
-Theorem block_parse_nest cs env toks : weight cs < c_maxNesting cfg ->
+Theorem block_parse_nest cs env toks : Forall okc cs -> weight cs < c_maxNesting cfg ->
   exists st, block_parse cfg rf cf (prefix cs ++ s ++ [10]) env toks = Ok st
     /\ b_tokens st = toks ++ wrap s cs 0 false /\ b_env st = env.
 Proof.
-  intros Hw. unfold block_parse.
-  destruct (rest_head s Hs cs) as (c1 & r1 & EL & Hsp & H9 & H32).
-  assert (NB : forall x, In x r1 -> x <> 10) by (intros x I; apply (rest_nolf cs); rewrite EL; right; exact I).
-  assert (N1 : c1 <> 10) by (apply (rest_nolf cs); rewrite EL; left; reflexivity).
+  intros FO Hw. unfold block_parse.
+  destruct (rest_head s Hs cs FO) as (c1 & r1 & EL & Hsp & H9 & H32).
+  assert (NB : forall x, In x r1 -> x <> 10) by (intros x I; apply (rest_nolf cs FO); rewrite EL; right; exact I).
+  assert (N1 : c1 <> 10) by (apply (rest_nolf cs FO); rewrite EL; left; reflexivity).
   rewrite app_assoc, EL.
   destruct (init_line_gen c1 r1 env toks Hsp N1 NB) as (O0 & T0 & E0 & L0).
   set (st := state_init ((c1 :: r1) ++ [10]) env toks) in *.
@@ -702,7 +756,7 @@ Proof.
   pose proof O0 as O0'. destruct O0' as (_ & _ & _ & _ & _ & _ & _ & HlM & _ & _).
   rewrite L0, HlM.
   pose proof (length_weight cs) as LW.
-  destruct (nest cfg rf cf s Hs RA RB RC RD HC HA HB HCn cs [] [] 0 (-1) 0 (S (Z.to_nat (c_maxNesting cfg)))
+  destruct (nest cfg rf cf s Hs RA RB RC RD HC HA HB HCn cs FO [] [] 0 (-1) 0 (S (Z.to_nat (c_maxNesting cfg)))
                  (fun x (H : In x []) => match H with end) ltac:(lia) ltac:(lia) st) as (st' & TK & O' & T' & E' & L' & _).
   - rewrite EL. apply one_line_off, O0.
   - exact L0.
@@ -725,11 +779,11 @@ Fixpoint wrapc (s : str) (cs : list ctr) (lv : Z) (hid : bool) (ch : list token)
   match cs with
   | [] => if hid then hide_para (para_ch s lv ch) else para_ch s lv ch
   | CQ :: r => bq_open_at lv :: wrapc s r (lv + 1) false ch ++ [bq_close_at lv]
-  | CI :: r => ul_open_at lv :: li_open_at (lv + 1) :: wrapc s r (lv + 2) true ch ++ [li_close_at (lv + 1); ul_close_at lv]
+  | CI m _ :: r => ul_open_at m lv :: li_open_at m (lv + 1) :: wrapc s r (lv + 2) true ch ++ [li_close_at m (lv + 1); ul_close_at m lv]
   end.
 
 Lemma wrap_wrapc s : forall cs lv hid, wrap s cs lv hid = wrapc s cs lv hid [].
-Proof. induction cs as [|[|] cs IH]; intros lv hid; cbn [wrap wrapc]; [destruct hid; reflexivity | rewrite IH; reflexivity | rewrite IH; reflexivity]. Qed.
+Proof. induction cs as [|[|m k] cs IH]; intros lv hid; cbn [wrap wrapc]; [destruct hid; reflexivity | rewrite IH; reflexivity | rewrite IH; reflexivity]. Qed.
 
 Section NPipe.
 Context (cfg : pcfg) (rf cf lt : str -> str).
@@ -761,12 +815,12 @@ Lemma inline_all_wrapc env : forall cs lv hid,
   inline_all cfg rf cf lt (wrapc s cs lv hid []) env
   = (do toks <- inline_parse (p_inline cfg) rf cf lt s env []; Ok (wrapc s cs lv hid toks)).
 Proof.
-  induction cs as [|[|] cs IH]; intros lv hid; cbn [wrapc].
+  induction cs as [|[|m k] cs IH]; intros lv hid; cbn [wrapc].
   - apply inline_all_para.
   - cbn [inline_all]. change (str_eqb (ttype (bq_open_at lv)) s_inline) with false. cbv iota. cbn [bind].
     rewrite inline_all_app, IH.
     destruct (inline_parse (p_inline cfg) rf cf lt s env []) as [toks|e|]; cbn [bind]; reflexivity.
-  - cbn [inline_all]. change (str_eqb (ttype (ul_open_at lv)) s_inline) with false. change (str_eqb (ttype (li_open_at (lv + 1))) s_inline) with false.
+  - cbn [inline_all]. change (str_eqb (ttype (ul_open_at m lv)) s_inline) with false. change (str_eqb (ttype (li_open_at m (lv + 1))) s_inline) with false.
     cbv iota. cbn [bind].
     rewrite inline_all_app, IH.
     destruct (inline_parse (p_inline cfg) rf cf lt s env []) as [toks|e|]; cbn [bind]; reflexivity.
@@ -775,7 +829,7 @@ Qed.
 Lemma text_join_wrapc toks : forall cs lv hid, text_join (wrapc s cs lv hid toks) = wrapc s cs lv hid (join_children toks).
 Proof.
   unfold text_join.
-  induction cs as [|[|] cs IH]; intros lv hid; cbn [wrapc].
+  induction cs as [|[|m k] cs IH]; intros lv hid; cbn [wrapc].
   - destruct hid; reflexivity.
   - cbn [map]. rewrite map_app, IH. reflexivity.
   - cbn [map]. rewrite map_app, IH. reflexivity.
@@ -783,11 +837,16 @@ Qed.
 
 End NPipe.
 
-Lemma mem_prefix c : c <> 62 -> c <> 45 -> c <> 32 -> forall cs, mem_z c (prefix cs) = false.
+Lemma mem_prefix c : c <> 62 -> c <> 32 -> c <> 42 -> c <> 45 -> c <> 43 -> forall cs, Forall okc cs -> mem_z c (prefix cs) = false.
 Proof.
-  intros A B C. induction cs as [|[|] cs IH]; cbn [prefix cpre app]; [reflexivity| |]; unfold mem_z in *; cbn [existsb];
-    rewrite IH; assert (E1 : (c =? 62) = false) by lia; assert (E2 : (c =? 45) = false) by lia; assert (E3 : (c =? 32) = false) by lia;
-    rewrite ?E1, ?E2, ?E3; reflexivity.
+  intros A B C D E. induction cs as [|[|m k] cs IH]; intros F; cbn [prefix cpre]; [reflexivity| |]; inversion F as [|? ? OK F']; subst.
+  - unfold mem_z in *. cbn [app existsb]. rewrite (IH F'). assert (E1 : (c =? 62) = false) by lia. assert (E2 : (c =? 32) = false) by lia.
+    rewrite E1, E2. reflexivity.
+  - destruct OK as [Hm _]. unfold mem_z in *. cbn [app existsb]. rewrite existsb_app, (IH F').
+    assert (E1 : (c =? m) = false) by lia. rewrite E1.
+    assert (E2 : forall j, existsb (Z.eqb c) (sp j) = false).
+    { unfold sp. induction j as [|j IHj]; [reflexivity|]. cbn [repeat existsb]. assert (E3 : (c =? 32) = false) by lia. rewrite E3. exact IHj. }
+    rewrite E2. reflexivity.
 Qed.
 
 (* C06, containers within containers: the document  prefix(cs) s LF  - any list of "> " and "- " markers in front of
@@ -800,24 +859,24 @@ Theorem parse_nested :
     Forall (fun n => n = nm_table \/ n = nm_code \/ n = nm_fence \/ n = nm_hr) RB ->
     Forall (fun n => str_eqb n nm_paragraph = false) RC ->
     p_core cfg = [n_normalize; n_block; n_inline; n_text_join] ->
-  forall cs, weight cs < c_maxNesting (p_block cfg) ->
+  forall cs, Forall okc cs -> weight cs < c_maxNesting (p_block cfg) ->
   forall env,
     parse cfg rf cf lt (prefix cs ++ s ++ [10]) env
     = (do toks <- inline_parse (p_inline cfg) rf cf lt s env [];
        Ok (wrapc s cs 0 false (join_children toks), env)).
 Proof.
-  intros cfg rf cf lt s Hs H13 H0 RA RB RC RD HC HA HB HCn Hcore cs Hw env.
+  intros cfg rf cf lt s Hs H13 H0 RA RB RC RD HC HA HB HCn Hcore cs FO Hw env.
   unfold parse. rewrite Hcore. cbn [core_process].
   change (core_rule cfg rf cf lt n_normalize (mkC (prefix cs ++ s ++ [10]) env [] false))
     with (Ok (mkC (normalize (prefix cs ++ s ++ [10])) env [] false) : res cstate).
   cbn [bind].
-  assert (M : forall c, c <> 10 -> c <> 62 -> c <> 45 -> c <> 32 -> mem_z c s = false -> mem_z c (prefix cs ++ s ++ [10]) = false).
-  { intros c A B C D E. unfold mem_z. rewrite !existsb_app. fold (mem_z c (prefix cs)). fold (mem_z c s). rewrite (mem_prefix c B C D cs), E.
+  assert (M : forall c, c <> 10 -> c <> 62 -> c <> 32 -> c <> 42 -> c <> 45 -> c <> 43 -> mem_z c s = false -> mem_z c (prefix cs ++ s ++ [10]) = false).
+  { intros c A B C D D2 D3 E. unfold mem_z. rewrite !existsb_app. fold (mem_z c (prefix cs)). fold (mem_z c s). rewrite (mem_prefix c B C D D2 D3 cs FO), E.
     cbn. assert (E1 : (c =? 10) = false) by lia. rewrite E1. reflexivity. }
   rewrite (normalize_id (prefix cs ++ s ++ [10])) by (apply M; try discriminate; assumption).
   change (core_rule cfg rf cf lt n_block (mkC (prefix cs ++ s ++ [10]) env [] false))
     with (do b <- block_parse (p_block cfg) rf cf (prefix cs ++ s ++ [10]) env []; Ok (mkC (prefix cs ++ s ++ [10]) (b_env b) (b_tokens b) false)).
-  destruct (block_parse_nest (p_block cfg) rf cf s Hs RA RB RC RD HC HA HB HCn cs env [] Hw) as (st & BP & T & E).
+  destruct (block_parse_nest (p_block cfg) rf cf s Hs RA RB RC RD HC HA HB HCn cs env [] FO Hw) as (st & BP & T & E).
   rewrite BP. cbn [bind]. rewrite T, E. cbn [app].
   change (core_rule cfg rf cf lt n_inline ?x) with (do ts <- inline_all cfg rf cf lt (c_tokens x) (c_env x); Ok (mkC (c_src x) (c_env x) ts (c_inlineMode x))).
   cbn [c_tokens c_env c_src c_inlineMode].
@@ -831,6 +890,6 @@ Qed.
 Example nested_example :
   [nm_table; nm_code; nm_fence; nm_blockquote; nm_hr; nm_list; nm_reference; nm_html_block; nm_heading; nm_lheading; nm_paragraph]
   = [nm_table; nm_code; nm_fence] ++ nm_blockquote :: [nm_hr] ++ nm_list :: [nm_reference; nm_html_block; nm_heading; nm_lheading] ++ nm_paragraph :: []
-  /\ prefix [CQ; CI; CQ] ++ [102; 111; 111] ++ [10] = [62; 32; 45; 32; 62; 32; 102; 111; 111; 10]
-  /\ weight [CQ; CI; CQ] = 4.
-Proof. repeat split. Qed.
+  /\ prefix [CQ; CI 45 1; CI 42 3; CQ] ++ [102; 111; 111] ++ [10] = [62; 32; 45; 32; 42; 32; 32; 32; 62; 32; 102; 111; 111; 10]
+  /\ weight [CQ; CI 45 1; CI 42 3; CQ] = 6 /\ Forall okc [CQ; CI 45 1; CI 42 3; CQ].
+Proof. repeat split; repeat constructor; lia. Qed.
